@@ -74,6 +74,7 @@ pub fn build_graph(gs: &GraphSpec) -> Result<(G, Built), BuildPanic> {
                 id: i,
                 reads: f.reads,
                 writes: f.writes,
+                style: f.style,
                 visits: 0,
             });
             ids.push(id);
@@ -524,6 +525,8 @@ fn new_run_state(rs: &RunSpec, n: usize, built: &Built) -> RunState {
         signals_left: rs.signals,
         sender_dropped: false,
         held: Vec::new(),
+        carried: Vec::new(),
+        carried_done: Vec::new(),
         held_finish: Vec::new(),
         vnow: 0,
         polls_since_external: 0,
@@ -559,6 +562,8 @@ pub struct DriveResult {
 
 /// Drives `specs` (all simultaneously) on the given graph.
 /// `excl`: give run 0 exclusive access (only valid with exactly one run).
+pub type CarriedRefs = Vec<Option<FnRef<'static, SimFn>>>;
+
 pub fn drive<'g>(
     graph: &'g mut G,
     built: &Built,
@@ -566,6 +571,20 @@ pub fn drive<'g>(
     scheduler: Box<dyn Scheduler>,
     autostart: bool,
 ) -> DriveResult {
+    drive_carry(graph, built, specs, scheduler, autostart, Vec::new()).0
+}
+
+/// `carry_in`: FnRefs left over from the previous run (slots of run 0).  Returns
+/// the FnRefs run 0 still held when it was told to leave them (`leave_refs`).
+/// SAFETY contract: the caller drops the returned refs before the graph.
+pub fn drive_carry<'g>(
+    graph: &'g mut G,
+    built: &Built,
+    specs: &[RunSpec],
+    scheduler: Box<dyn Scheduler>,
+    autostart: bool,
+    carry_in: CarriedRefs,
+) -> (DriveResult, Vec<FnRef<'static, SimFn>>) {
     let coop = specs.iter().any(|s| s.coop);
     if coop {
         // The whole simulation is the single task of a current-thread runtime, so that
@@ -575,9 +594,9 @@ pub fn drive<'g>(
             static RT: tokio::runtime::Runtime =
                 tokio::runtime::Builder::new_current_thread().build().expect("harness: runtime");
         }
-        RT.with(|rt| rt.block_on(drive_async(graph, built, specs, scheduler, autostart, true)))
+        RT.with(|rt| rt.block_on(drive_async(graph, built, specs, scheduler, autostart, true, carry_in)))
     } else {
-        let mut fut = Box::pin(drive_async(graph, built, specs, scheduler, autostart, false));
+        let mut fut = Box::pin(drive_async(graph, built, specs, scheduler, autostart, false, carry_in));
         let waker = futures::task::noop_waker();
         let mut cx = Context::from_waker(&waker);
         match fut.as_mut().poll(&mut cx) {
@@ -585,6 +604,28 @@ pub fn drive<'g>(
             Poll::Pending => panic!("harness: the simulator loop yielded outside coop mode"),
         }
     }
+}
+
+/// Consumes `k` units of the current tokio task's cooperative budget: `k` ready
+/// receives on a channel of our own.
+fn burn_budget(k: usize) {
+    thread_local! {
+        static CH: std::cell::RefCell<(tokio::sync::mpsc::UnboundedSender<()>, tokio::sync::mpsc::UnboundedReceiver<()>)> =
+            std::cell::RefCell::new(tokio::sync::mpsc::unbounded_channel());
+    }
+    CH.with(|c| {
+        let mut c = c.borrow_mut();
+        let waker = futures::task::noop_waker();
+        let mut cx = Context::from_waker(&waker);
+        for _ in 0..k {
+            let _ = c.0.send(());
+            // Ready(Some) while budget remains; Pending (message stays queued) once exhausted
+            if c.1.poll_recv(&mut cx).is_pending() {
+                let _ = c.1.try_recv();
+                break;
+            }
+        }
+    });
 }
 
 /// Returns control to the enclosing runtime once (coop mode): the task budget is
@@ -612,7 +653,8 @@ async fn drive_async<'g>(
     scheduler: Box<dyn Scheduler>,
     autostart: bool,
     coop: bool,
-) -> DriveResult {
+    carry_in: CarriedRefs,
+) -> (DriveResult, Vec<FnRef<'static, SimFn>>) {
     assert!(specs.len() <= MAX_RUNS);
     let n = built.n;
     let w = World::new();
@@ -622,6 +664,13 @@ async fn drive_async<'g>(
         for (r, rs) in specs.iter().enumerate() {
             runs.push(new_run_state(rs, n, built));
             w.cells[r].strict.set(rs.strict_waker);
+        }
+        if let Some(r0) = runs.get_mut(0) {
+            let slots = r0.spec.carried_slots as usize;
+            let mut c = carry_in;
+            c.resize_with(slots, || None);
+            r0.carried_done = vec![false; slots];
+            r0.carried = c;
         }
     }
     set_current(Some(w.clone()));
@@ -690,7 +739,7 @@ async fn drive_async<'g>(
         {
             let runs = w.runs.borrow();
             for (r, rs) in runs.iter().enumerate() {
-                if rs.finished && rs.held.is_empty() {
+                if rs.finished && (rs.held.is_empty() || rs.spec.leave_refs) {
                     continue;
                 }
                 all_done = false;
@@ -713,6 +762,13 @@ async fn drive_async<'g>(
                 let woken = w.cells[r].woken.get() > 0;
                 if live_root && (rs.spec.api.is_stream() && rs.stream_alive && !rs.stream_ended || !rs.spec.api.is_stream()) {
                     actions.push(Action::Poll);
+                }
+                if live_root {
+                    for (k, done) in rs.carried_done.iter().enumerate() {
+                        if !*done {
+                            actions.push(Action::DropCarried(k));
+                        }
+                    }
                 }
                 if live_root {
                     for (id, g) in rs.gates.iter().enumerate() {
@@ -831,7 +887,9 @@ async fn drive_async<'g>(
                         .actions
                         .iter()
                         .any(|a| matches!(a, Action::DropRef(_) | Action::ForgetRef(_)));
-                    if (idle && nothing) || (!rs.stream_alive && nothing) || (rs.stream_ended && nothing) {
+                    // a consumer told to walk away does so as soon as its stream is gone
+                    let walk_away = rs.spec.leave_refs && (!rs.stream_alive || rs.stream_ended);
+                    if walk_away || (idle && nothing) || (!rs.stream_alive && nothing) || (rs.stream_ended && nothing) {
                         rs.finished = true;
                         ended_any = true;
                     }
@@ -920,6 +978,22 @@ async fn drive_async<'g>(
                 }
                 w.perform_external(r, action);
             }
+            Action::DropCarried(k) => {
+                let fr = {
+                    let mut runs = w.runs.borrow_mut();
+                    let rs = &mut runs[r];
+                    rs.polls_since_external = 0;
+                    rs.carried_done[k] = true;
+                    rs.carried[k].take()
+                };
+                w.push(Ev::CarriedRefDrop { run: r, slot: k });
+                if fr.is_some() {
+                    w.fire("ref_of_earlier_stream_dropped_during_later_run");
+                }
+                if let Err(p) = catch_unwind(AssertUnwindSafe(move || drop(fr))) {
+                    w.push(Ev::Panic { run: r, msg: format!("dropping an FnRef of an earlier stream: {}", panic_msg(&p)) });
+                }
+            }
             Action::DropStream => {
                 let root = std::mem::replace(&mut roots[r], Root::Done);
                 w.push(Ev::StreamDrop { run: r });
@@ -977,12 +1051,21 @@ async fn drive_async<'g>(
         let root = std::mem::replace(root, Root::Done);
         let _ = catch_unwind(AssertUnwindSafe(move || drop(root)));
     }
+    let mut left: Vec<FnRef<'static, SimFn>> = Vec::new();
     let held: Vec<_> = {
         let mut runs = w.runs.borrow_mut();
+        if let Some(r0) = runs.get_mut(0) {
+            if r0.spec.leave_refs {
+                left = std::mem::take(&mut r0.held).into_iter().map(|x| x.1).collect();
+            }
+        }
         runs.iter_mut()
             .flat_map(|rs| {
                 rs.intr_tx = None;
-                std::mem::take(&mut rs.held)
+                let c: Vec<_> = std::mem::take(&mut rs.carried).into_iter().flatten().map(|f| (usize::MAX, f)).collect();
+                let mut h = std::mem::take(&mut rs.held);
+                h.extend(c);
+                h
             })
             .collect()
     };
@@ -1012,7 +1095,7 @@ async fn drive_async<'g>(
     let events = std::mem::take(&mut *w.events.borrow_mut());
     let schedule = std::mem::take(&mut *w.schedule.borrow_mut());
     let fired = std::mem::take(&mut *w.fired.borrow_mut());
-    DriveResult {
+    (DriveResult {
         events,
         schedule,
         steps,
@@ -1024,7 +1107,7 @@ async fn drive_async<'g>(
         vt_ok,
         max_polls_after_external,
         n,
-    }
+    }, left)
 }
 
 fn finish_run(w: &Rc<World>, roots: &mut [Root<'_>], r: usize) {
@@ -1069,6 +1152,18 @@ async fn poll_run<'g>(
     }
     let waker = w.make_waker(r);
     let mut cx = Context::from_waker(&waker);
+    if coop {
+        let (burn, polls) = {
+            let runs = w.runs.borrow();
+            (runs[r].spec.coop_burn, runs[r].polls)
+        };
+        if burn > 0 && polls % 3 == 1 {
+            // the caller has used up part (or all) of its task's cooperative budget
+            // before it gets to poll the call
+            burn_budget(burn as usize);
+            w.fire("coop_budget_used_up_by_caller_before_poll");
+        }
+    }
     w.push(Ev::PollBegin { run: r });
     w.polling.set(Some(r));
     w.seam_ord.set(0);
@@ -1257,10 +1352,26 @@ pub fn run_case(
                 true,
             );
             drop(fresh);
+            let mut carry: Vec<FnRef<'static, SimFn>> = Vec::new();
             for (i, rs) in case.runs.iter().enumerate() {
-                let d = drive(&mut graph, &built, std::slice::from_ref(rs), mk_sched(i), true);
+                // FnRefs the previous run's consumer walked away with (they borrow the
+                // graph, not the stream) fill this run's slots; surplus ones are dropped now
+                let slots = rs.carried_slots as usize;
+                let mut carry_in: CarriedRefs = Vec::new();
+                let mut surplus = Vec::new();
+                for (k, f) in std::mem::take(&mut carry).into_iter().enumerate() {
+                    if k < slots {
+                        carry_in.push(Some(f));
+                    } else {
+                        surplus.push(f);
+                    }
+                }
+                let _ = catch_unwind(AssertUnwindSafe(move || drop(surplus)));
+                let (d, left) = drive_carry(&mut graph, &built, std::slice::from_ref(rs), mk_sched(i), true, carry_in);
+                carry = left;
                 drives.push(d);
             }
+            let _ = catch_unwind(AssertUnwindSafe(move || drop(carry)));
             // drives = [run 0 .. run k-1 on the reused graph, probe on the fresh graph]
             drives.push(fresh_drive);
         }
